@@ -39,3 +39,18 @@ CHECKS["C11"] = (
     "Raw 0xC0 bodies built by the model's vendor-layout encoder with raw overrides are reported to fresh clients through refresh() on the simulated network (V2 and V3) and through Response.construct+_update_state. Complete grids: 256x10 temperature byte x tenths for both sensors and units, 32x32 setpoint codes, every value of every interpreted byte, lengths 16..40, both check styles, frame types 2/3; random bodies beyond.",
     "Fan byte limited to 0..127; mode asserted for members 1..6 and swing for the four canonical nibbles only (the vendor layout does not define the rest).",
     "DESIGN.md 3/C11")
+CHECKS["C12"] = (
+    "exploration", "exhaustive enumeration of command classes x parameters + id-wrapping sequences + Hypothesis device-operation histories; oracle = strict independent frame parser and the model's conformance parser",
+    "Every Command subclass over its whole parameter domain (all 4096 property-id subsets, all 511 property-write subsets, all single values 0..255 per writable id, set-state over C10's domain), sequences of 300..700 commands that wrap the message id, and every public AirConditioner operation under generated capability profiles against the model device, which rejects any frame a spec-conforming parser would reject.",
+    "Strict parser written from the frame layout (bitwise CRC-8 cross-checked with the library table in the self-test).",
+    "DESIGN.md 3/C12")
+CHECKS["C13"] = (
+    "fault_enumeration", "exhaustive single-byte corruption of every response kind (all positions x all 255 values, with/without outer checksum fix-up) against an independent validity predicate",
+    "Decoder level is exhaustive in both tiers (~125k faults): a frame failing the independent predicate must raise InvalidFrame/InvalidResponse. Full stack: a prepared client (capabilities + state from a good device) meets a device that has changed every field, property and capability and answers every request with the corrupted frame; to_dict(), breeze/ieco and all capability attributes must be unchanged, online/supported false, no exception (8 values per position quick, all 255 thorough).",
+    "Corruptions that satisfy the other body check or turn the id into 0xB0/0xB1 are valid by the property's definition (counted, not asserted).",
+    "DESIGN.md 3/C13")
+CHECKS["C14"] = (
+    "exploration", "structured generation of checksummed malformed responses (truncation to every length, count/size bytes 0..255, all ids x frame types, oversize) in good/bad mixes over all operations; metamorphic oracle against the clean run; atheris in thorough",
+    "Bad frames are rebuilt with valid CRC and checksum so they pass validation and reach the parsers; they answer every request of refresh, apply (with and without pending property writes), get_capabilities (one and two pages), toggle_display and start_self_clean, alone or mixed before/after the model's good answers. No operation may raise; when the bad members are irrelevant by specification the final client state must equal that of the clean run.",
+    "The 'irrelevant by specification' classes are listed in the evidence assumptions; other bad frames only get the no-raise oracle.",
+    "DESIGN.md 3/C14")
